@@ -634,6 +634,8 @@ impl Session {
 
         // Shuffle to get better distribution of pieces from peers
         rarest.shuffle(&mut rand::thread_rng());
+        #[cfg(feature = "verif")]
+        crate::verif::reorder_candidates(&mut rarest);
 
         // Sort by rarest
         rarest.sort_by(|(_, count1), (_, count2)| count1.cmp(&count2));
